@@ -28,7 +28,8 @@ CLAIMS = {
     "C02": dict(
         text=_T + "Decides the 8-row outcome table of ANM.sample (do / shift / noise / none and overlaps), that parent "
              "columns are selected by the boolean mask of column i of the stored matrix, that the loop runs over the "
-             "ordering computed once in the constructor from the same matrix, None -> null -> 0, the n x p result, no hidden model state.",
+             "ordering computed once in the constructor from the same matrix, None -> null -> 0, the n x p result, no hidden model state, "
+             "one reseed per call before the loop, and that constructor and sampler write nothing they do not own.",
         note="Not decided: that topological_ordering returns a topological order (C03's undecided core); numpy broadcasting.",
         technique="static analysis: case tables by predicate abstraction over symbolic terms, dependence (REL) rules"),
     "C03": dict(
@@ -39,7 +40,7 @@ CLAIMS = {
              "verdict on the matrix it then stores, before storing it. Also decides the shape of Kahn's loop (sources = zero "
              "in-degree of the pattern, pop -> emit once, remove the emitted node's out-edges, child ready iff no parent left in the "
              "updated matrix, leftover test guards the return) and that every kind of cycle is rejected by the pre-check or by the "
-             "leftover test.",
+             "leftover test, and that deciding acyclicity never writes the matrix it is asked about.",
         note="Not decided: the inductive argument that Kahn's loop with this shape emits every node exactly once in a forward order.",
         technique="static analysis: zero-pattern taint (abstract interpretation, interprocedural), sign-domain pointwise tables, guard dominance over symbolic path conditions"),
     "C04": dict(
@@ -58,7 +59,8 @@ CLAIMS = {
         technique="static analysis: matrix-algebra normal form of symbolic terms, order-class dataflow, guard dominance"),
     "C06": dict(
         text=_T + "Decides that coefficients, intercept and MSE equal the normal-equation references over the reals, that "
-             "coefficients are written only at S over a zero base, and that mse does not depend on the means.",
+             "coefficients are written only at (a re-ordering of) S over a zero base with value and positions in the same order, and that mse "
+             "does not depend on the means; differing forms are refuted by exact rational evaluation at a point with S in cyclic order.",
         note="Not decided: monotonicity/invariance corollaries; the LGANM causal link (a theorem combining C01 and the normal equations).",
         technique="static analysis: matrix normal form, write-set and must-not-depend rules over symbolic terms"),
     "C07": dict(
@@ -144,7 +146,7 @@ CLAIMS = {
     "C20": dict(
         text=_T + "Decides that each factory's closure passes its parameters to the matching numpy slot with size <- n, "
              "normal converts variance to standard deviation, draws use the global legacy stream and stay on it under ANM's deepcopy "
-             "(no partial over a bound method of the global RandomState), zero/null are constant 0.",
+             "(no partial over a bound method of the global RandomState), every n >= 0 of any integer type is served, zero/null are constant 0.",
         note="Not decided: the distributional laws themselves (numpy).",
         technique="static analysis: closure evaluation to symbolic terms, slot/unit rules"),
 }
